@@ -87,6 +87,13 @@ Theorem alias_registration_cannot_replace_name : forall inst df r g c n k d fl k
 Proof. exact Proofs.Plugins.alias_registration_cannot_replace_name. Qed.
 Print Assumptions alias_registration_cannot_replace_name.
 
+(* find_plugin answers a class or raises a pybtex error -- never a foreign exception -- for every
+   state, table and argument, names starting with a period included *)
+Theorem find_plugin_no_foreign_exception : forall r inst df g name fl,
+  find_plugin r inst df g name fl <> Crash /\ find_plugin r inst df g name fl <> OutOfFuel.
+Proof. exact Proofs.Plugins.find_plugin_no_foreign_exception. Qed.
+Print Assumptions find_plugin_no_foreign_exception.
+
 Theorem find_by_suffix_stable : forall inst df cs r g fl k d,
   dget df g = Some d -> fl <> [] ->
   lookup1 r inst (g ++ s_suffixes) (snd (splitext fl)) = Some k ->
